@@ -9,6 +9,8 @@
         for each stored change: git -C /repo apply, run the checks of meta.catches (or --props) against /repo
         itself, git -C /repo checkout -- . ; report exit codes.  /repo must be clean and nothing else may be
         using it meanwhile.
+    seeded.py table                  print the markdown table of DESIGN.md 11.7
+    seeded.py history <id> <text>    record how an earlier version of a check missed the change and what closed the gap
 """
 from __future__ import annotations
 
@@ -126,6 +128,29 @@ def verify(a):
     return 1 if bad else 0
 
 
+def table(a):
+    """The markdown table of DESIGN.md section 11.7, from the stored meta.json files."""
+    print("| id | needs, in order to manifest | caught by (first failing clause) |")
+    print("|---|---|---|")
+    for d in sorted(p for p in SEEDED.iterdir() if (p / "meta.json").exists()):
+        m = json.loads((d / "meta.json").read_text())
+        c = m.get("verified_on_repo") or m["catches"]
+        by = "; ".join(f"{p} ({v['clause']})" for p, v in sorted(c.items()) if v["rc"] == 1) or "**NOT CAUGHT**"
+        mark = ""
+        if m.get("history"):
+            mark = " **(an earlier version of the check missed it)**" if "missed" in m["history"] else " *(see history in meta.json)*"
+        print(f"| `{m['id']}` | {m['needs']} | {by}{mark} |")
+    return 0
+
+
+def history(a):
+    d = SEEDED / a.id
+    m = json.loads((d / "meta.json").read_text())
+    m["history"] = a.text
+    (d / "meta.json").write_text(json.dumps(m, indent=1) + "\n")
+    return 0
+
+
 def main():
     ap = argparse.ArgumentParser()
     sub = ap.add_subparsers(dest="cmd", required=True)
@@ -141,8 +166,12 @@ def main():
     v.add_argument("ids", nargs="*")
     v.add_argument("--tier", default="quick")
     v.add_argument("--props")
+    sub.add_parser("table")
+    h = sub.add_parser("history")
+    h.add_argument("id")
+    h.add_argument("text")
     a = ap.parse_args()
-    return intake(a) if a.cmd == "intake" else verify(a)
+    return {"intake": intake, "verify": verify, "table": table, "history": history}[a.cmd](a)
 
 
 if __name__ == "__main__":
